@@ -11,10 +11,10 @@ import (
 
 // AddPairs attaches metadata onto a context and return the context.
 func AddPairs(ctx context.Context, metadata map[string]string) context.Context {
-	for key, val := range metadata {
-		ctx = Add(ctx, key, val)
+	if len(metadata) == 0 {
+		return ctx
 	}
-	return ctx
+	return withPairs(ctx, metadata)
 }
 
 // Encode generates byte form of the metadata and appends it onto the passed in buffer.
@@ -52,13 +52,24 @@ type metadataKey struct{}
 
 // Add associates a key/value pair on the context.
 func Add(ctx context.Context, key, value string) context.Context {
-	metadata, ok := Get(ctx)
-	if !ok {
-		metadata = make(map[string]string)
-		ctx = context.WithValue(ctx, metadataKey{}, metadata)
+	return withPairs(ctx, map[string]string{key: value})
+}
+
+// withPairs returns a context carrying the metadata of ctx plus the provided
+// pairs. The map already attached to ctx is never modified: contexts are
+// shared between calls, and writing into the parent's map would make the
+// metadata attached for one call visible to every other call derived from
+// the same parent.
+func withPairs(ctx context.Context, pairs map[string]string) context.Context {
+	parent, _ := Get(ctx)
+	metadata := make(map[string]string, len(parent)+len(pairs))
+	for key, val := range parent {
+		metadata[key] = val
 	}
-	metadata[key] = value
-	return ctx
+	for key, val := range pairs {
+		metadata[key] = val
+	}
+	return context.WithValue(ctx, metadataKey{}, metadata)
 }
 
 // Get returns all key/value pairs on the given context.
